@@ -145,11 +145,16 @@ def line_deps(c, strip_forks=False, s_nodes=None):
         if n.kind == '__fork__':
             src = n.ins[0] if driven else None
             for p, l in outs:
-                if src is None:
+                if src is None and strip_forks and id(n) not in srow:
+                    deps[l.index] = ('zero',)             # stripped undriven fork: its branches are the constant-0 slot
+                elif src is None:
                     deps[l.index] = ('op', [])            # undriven fork: constant 0
                 elif strip_forks and id(n) not in srow:
                     d = deps.get(src.index)
-                    deps[l.index] = ('alias', d[1] if d and d[0] == 'alias' else src.index)
+                    if d and d[0] == 'zero':
+                        deps[l.index] = ('zero',)
+                    else:
+                        deps[l.index] = ('alias', d[1] if d and d[0] == 'alias' else src.index)
                 else:
                     deps[l.index] = ('op', [src.index])
                 order.append(l.index)
@@ -178,6 +183,8 @@ def sta_windows(c, deps_order, delays, stim, b, sims):
                 if ts:
                     ear[li, lane] = ts[0]
                     lat[li, lane] = ts[-1]
+        elif d[0] == 'zero':
+            pass
         elif d[0] == 'alias':
             ear[li] = ear[d[1]]
             lat[li] = lat[d[1]]
